@@ -1,5 +1,7 @@
-"""Helper for C13 'first-use-interrupted': runs in a fresh interpreter. The very first width measurement of the process is aborted by a KeyboardInterrupt raised at the
-K-th executed line of rich/cells.py / rich/_lru_cache.py; the program goes on; every width measured afterwards must still be the table's. Prints a JSON object."""
+"""Helper for C13 'first-use-interrupted': runs in a fresh interpreter. A width measurement - the very first of the process, or a later one after the strings of a prelude
+have been measured undisturbed - is aborted by a KeyboardInterrupt raised at the K-th executed line of rich/cells.py / rich/_lru_cache.py; the program goes on; every width
+measured afterwards (single characters, the interrupted string itself, the prelude strings, resizing and chopping of the interrupted string) must still be the table's.
+argv: K, JSON (a string = the first string measured with cell_len, or {"pre": [...], "op": "cell_len"|"set"|"chop", "first": str, "n": int}).  Prints a JSON object."""
 import json
 import os
 import sys
@@ -10,7 +12,13 @@ rich_path = os.environ.get("VERIF_RICH_PATH", "/repo")
 sys.path.insert(0, rich_path)
 
 K = int(sys.argv[1])
-first = json.loads(sys.argv[2])   # the first string measured
+scenario = json.loads(sys.argv[2])
+if isinstance(scenario, str):
+    scenario = {"first": scenario}   # the first string measured
+first = scenario["first"]
+pre = scenario.get("pre", [])
+op = scenario.get("op", "cell_len")
+arg_n = scenario.get("n", 3)
 
 import rich.cells  # noqa: E402
 import rich._lru_cache  # noqa: E402
@@ -33,16 +41,24 @@ def tracer(frame, event, arg):
 
 
 OC.table()
+problems = []
+for p in pre:  # undisturbed measurements before the one that is aborted
+    if rich.cells.cell_len(p) != OC.width(p):
+        problems.append("prelude: cell_len(%r) = %r, the table sum is %r" % (p, rich.cells.cell_len(p), OC.width(p)))
 sys.settrace(tracer)
 interrupted = False
 try:
-    rich.cells.cell_len(first)
+    if op == "set":
+        rich.cells.set_cell_size(first, arg_n)
+    elif op == "chop":
+        rich.cells.chop_cells(first, max(2, arg_n))
+    else:
+        rich.cells.cell_len(first)
 except KeyboardInterrupt:
     interrupted = True
 finally:
     sys.settrace(None)
 
-problems = []
 blocks = sorted({ord(c) >> 8 for c in first})
 battery = [chr(cp) for b in blocks for cp in range(b << 8, (b << 8) + 256) if not 0xD800 <= cp <= 0xDFFF]
 battery += [chr(cp) for cp in range(0, 0x30000, 97) if not 0xD800 <= cp <= 0xDFFF]
@@ -59,9 +75,22 @@ for ch in battery:
     if len(problems) >= 3:
         break
 try:
-    again = rich.cells.cell_len(first)
-    if again != OC.width(first):
-        problems.append("cell_len(%r) = %r, the table sum is %r" % (first, again, OC.width(first)))
+    for s in [first, first] + list(pre) + [first]:
+        again = rich.cells.cell_len(s)
+        if again != OC.width(s):
+            problems.append("cell_len(%r) = %r, the table sum is %r" % (s, again, OC.width(s)))
+            break
+    total = OC.width(first)
+    for n in sorted({0, 1, total // 2, max(0, total - 1), total, total + 2, arg_n}):
+        out = rich.cells.set_cell_size(first, n)
+        if OC.width(out) != n or not (out.startswith(first) or first.startswith(out.rstrip(" ")) or first.startswith(out[:-1])):
+            problems.append("set_cell_size(%r, %d) = %r: %d cells / not a prefix plus spaces" % (first, n, out, OC.width(out)))
+            break
+    for w in sorted({2, 7, max(2, arg_n)}):
+        pieces = rich.cells.chop_cells(first, w)
+        if "".join(pieces) != first or any(OC.width(p) > w for p in pieces):
+            problems.append("chop_cells(%r, %d) = %r: pieces do not concatenate to the string or do not fit" % (first, w, pieces))
+            break
 except Exception as e:  # noqa
-    problems.append("cell_len(%r) raised %r" % (first, e))
+    problems.append("measuring %r again raised %r" % (first, e))
 print(json.dumps({"interrupted": interrupted, "lines": count[0], "problems": problems}))
